@@ -51,9 +51,9 @@ def main():
     try:
         demodst = os.path.join(wt, pkgdir, demofile)
         shutil.copy(os.path.join(src, demofile), demodst)
-        run = demo.get("run") or "go test -vet=off -count=1 -run Seed ./%s/" % pkgdir
-        if "cd " in run:
-            run = run.split("&&")[-1].strip()
+        # the demonstration tests are named TestSeed<ID>...: build the command ourselves
+        # (the agents' "run" strings contain prose and their own wrappers)
+        run = "go test -vet=off -count=1 -run TestSeed%s %s" % (sid, "." if pkgdir == "." else "./%s/" % pkgdir)
         runcmd = "unshare -n -- bash -c 'ip link set lo up 2>/dev/null; %s'" % run.replace("'", "'\\''")
         rc, out = sh(runcmd, cwd=wt)
         rec["steps"]["demo_passes_without_change"] = rc == 0
@@ -75,7 +75,7 @@ def main():
         # always include the core packages
         extra = "./internal/raft/ ./internal/rsm/ ./internal/logdb/ ./internal/tan/ ./internal/transport/ ./raftpb/"
         allp = " ".join(sorted(set((pk + " " + extra).split())))
-        rc, out = sh("unshare -n -- bash -c 'ip link set lo up 2>/dev/null; go test -vet=off -count=1 -timeout 30m %s'" % allp, cwd=wt)
+        rc, out = sh("unshare -n -- bash -c 'ip link set lo up 2>/dev/null; go test -p 1 -vet=off -count=1 -timeout 40m %s'" % allp, cwd=wt)
         rec["steps"]["existing_tests_pass"] = rc == 0
         rec["existing_tests_cmd"] = "go test -vet=off -count=1 " + allp
         if rc != 0:
